@@ -443,3 +443,32 @@ def api_grid(T, measures, max_tau=(0,), mrts=(0,), n_trains=2):
                         else:
                             for op in MULTI_OPS[meas]:
                                 yield op, [kw_field(m, ri, mt), idx_field(None)] + tfs, tg
+
+
+def text_cases(rng, n):
+    """save/load round trips and the decimal rounding of `{:.pe}`; spike times are arbitrary
+    doubles here (converted exactly to rationals)"""
+    def rnd():
+        r = rng.random()
+        if r < 0.2:
+            return Fr(rng.randint(0, 999))
+        if r < 0.4:
+            return Fr(float(rng.random() * 10 ** rng.randint(-6, 6)))
+        if r < 0.5:
+            # decimal ties of the rounding: k + 1/2 at the last printed digit (dyadic ones)
+            return Fr(rng.randint(1, 999)) + Fr(1, 2 ** rng.randint(1, 4))
+        return Fr(float(rng.uniform(0, 100)))
+    for _ in range(n):
+        p = rng.randint(1, 17)
+        yield 'round_sci', [[Fr(p)], [rnd() for _ in range(rng.randint(1, 6))]], ['round-p%d' % p]
+        k = rng.randint(1, 5)
+        trains = []
+        for _ in range(k):
+            m = rng.randint(0, 5)
+            t = [rnd() for _ in range(m)]
+            if rng.random() < 0.6:
+                t.sort()
+            trains.append(t)
+        if all(len(t) == 0 for t in trains) and rng.random() < 0.8:
+            trains[0] = [Fr(1)]
+        yield 'save_load', [[Fr(p), Fr(rng.choice([0, 1])), Fr(rng.choice([0, 0, 1]))]] + trains, ['save-load', 'prec-%d' % p] + (['empty-train'] if any(len(t) == 0 for t in trains) else [])
